@@ -5230,12 +5230,19 @@ func readWithRuns(b *Bitmap, data []byte, pos int, keyN uint32) error {
 		switch c.typ() {
 		case containerRun:
 			runCount := binary.LittleEndian.Uint16(data[pos : pos+runCountHeaderSize])
-			c.setRuns((*[0xFFFFFFF]interval16)(unsafe.Pointer(&data[pos+runCountHeaderSize]))[:runCount:runCount])
-			runs := c.runs()
-
-			for o := range runs { // must convert from start:length to start:end :(
+			// The official format stores runs as start:length and we need
+			// start:end. Convert a copy: the input belongs to the caller (and
+			// may be a read-only mapping), so it must not be written to.
+			if len(data) < pos+runCountHeaderSize+int(runCount)*interval16Size {
+				return fmt.Errorf("run container incomplete: len=%d", len(data))
+			}
+			runs := make([]interval16, runCount)
+			copy(runs, (*[0xFFFFFFF]interval16)(unsafe.Pointer(&data[pos+runCountHeaderSize]))[:runCount:runCount])
+			for o := range runs {
 				runs[o].last = runs[o].start + runs[o].last
 			}
+			c.setRuns(runs)
+			c.setMapped(false)
 			pos += int((runCount * interval16Size) + runCountHeaderSize)
 		case containerArray:
 			c.setArray((*[0xFFFFFFF]uint16)(unsafe.Pointer(&data[pos]))[:c.N():c.N()])
